@@ -48,8 +48,16 @@ def offset_values(draw, n, dtypes=("float64", "float32", "int64")):
 @st.composite
 def var_case(draw, variant):
     n = draw(st.sampled_from([1, 2, 3, 4, 5, 6, 8, 10, 12, 16, 20, 30]))
-    return {"n": n, "keys": draw(S.keys(n, nkeys=(1, 2), max_labels=4)), "vals": [draw(offset_values(n))],
-            "mask": draw(S.mask_spec(n)), "ddof": draw(st.sampled_from([0, 1])), "op": draw(st.sampled_from(["var", "std"])), "sort": True}
+    vspec = draw(offset_values(n))
+    # value container: NumPy, or a nullable container (pandas nullable / Arrow-backed pandas / polars) in which integer
+    # columns can hold nulls too: the count that enters the variance is the number of non-null values, whatever the dtype
+    vc = draw(st.sampled_from(["np", "np", "series_nullable", "pd_arrow", "pl"]))
+    if vc != "np" and vspec["dtype"] == "int64" and n:
+        nulls = draw(st.lists(st.sampled_from([False, False, True]), min_size=n, max_size=n))
+        vspec["vals"] = [None if z else v for v, z in zip(vspec["vals"], nulls)]
+    return {"n": n, "warm": draw(S.warm()), "keys": draw(S.keys(n, nkeys=(1, 2), max_labels=4)), "vals": [vspec],
+            "mask": draw(S.mask_spec(n)), "ddof": draw(st.sampled_from([0, 1])), "op": draw(st.sampled_from(["var", "std"])), "sort": True,
+            "render": {"vc": vc, "kc": "np", "mc": "np"}}
 
 
 def flags(case, groups, groups_all, labels):
@@ -75,7 +83,8 @@ def var_check(case, ctx):
     fl = flags(case, groups, groups_all, labels)
     small = any(len(model.nonnull([pv[p] for p in ps])) <= ddof for ps in groups.values())
     ctx.seen("var", case, len(groups_all) >= 2 and (bool(fl) or small), [f"op:{op}", f"ddof:{ddof}", f"dtype:{vspec['dtype']}",
-                                                                         "mask:" + (case["mask"]["kind"] if case["mask"] else "none"), f"small_group:{small}"] + [f"flag:{x}" for x in fl])
+                                                                         "mask:" + (case["mask"]["kind"] if case["mask"] else "none"), f"small_group:{small}",
+                                                                         f"vc:{case.get('render', {}).get('vc', 'np')}"] + [f"flag:{x}" for x in fl])
     rl, got = gbops.result_to_dict(res, op)
     if set(rl) != set(groups):
         raise Violation(f"labels:{op}", f"{rl} vs {list(groups)}")
@@ -108,7 +117,7 @@ def quant_case(draw, variant):
     vspec = draw(S.value_column(n, dtypes=("float64", "int64", "float32"), regime="exact"))
     if vspec["dtype"] == "int64":
         vspec["vals"] = [v % 2001 - 1000 for v in vspec["vals"]]
-    return {"n": n, "keys": draw(S.keys(n, nkeys=(1, 2), max_labels=4)), "vals": [vspec], "mask": draw(S.mask_spec(n, kinds=("none", "bool"))),
+    return {"n": n, "warm": draw(S.warm()), "keys": draw(S.keys(n, nkeys=(1, 2), max_labels=4)), "vals": [vspec], "mask": draw(S.mask_spec(n, kinds=("none", "bool"))),
             "op": draw(st.sampled_from(["median", "quantile", "quantile"])), "sort": True,
             "q": draw(st.sampled_from([[0.5], [0.25, 0.75], [0.0, 1.0, 0.1], [0.3, 0.9, 0.6]]))}
 
